@@ -8,13 +8,24 @@
    Round 3: both hypotheses are PROVED for the spectral functions lss_spec / expm_spec of model/M_C11s.v (V diag(f(lam)) V^T over an
    eigen-solver that stays a parameter) from the solver contract eigh_ok at the matrices it is called on (theorems with `spectral` in their name and
    C11_coaxial_update, C11_coaxial_update_three_branch); relaxation over arbitrary step sequences is stated for every branch and for the reported total.
-   NOT PROVED: that TensorMath.eigen_sym33_unit satisfies eigh_ok (existence of such a solver for every symmetric matrix is the spectral
-   theorem, accuracy of the routine is property C12) and that jax.scipy.linalg.expm (Pade approximant) equals the spectral exponential;
-   both are evaluated numerically by the harness on every run.  Binary64 rounding is outside the theorems. *)
+   Round 4: (a) the spectral theorem for symmetric 3x3 matrices is PROVED (C11_eigen_solver_exists: a solver eigh_sym that meets eigh_ok at
+   EVERY symmetric matrix, built without a choice axiom: IVT root of the characteristic cubic, kernel vector from cross products of rows,
+   Householder deflation, one Givens rotation), and the spectral functions do not depend on the solver (C11_spectral_function_solver_independent),
+   so lss_R / expm_R are THE matrix logarithm (halved) / exponential of symmetric matrices; (b) every matrix the solvers are called on in a
+   step is symmetric, so the per-call premises step_ok / seq_ok follow from the contract on symmetric matrices (theorems *_all) and vanish for
+   lss_R / expm_R (theorems *_unconditional: isochoric flow, coaxial update, monotone relaxation of the single branch, of every branch and
+   of the reported three-branch total, with NO hypothesis on the matrix functions); (c) arbitrary deformation-and-time-step histories
+   [(H_1, dt_1); ...]: det Fv is constant along the whole history (= 1 from the virgin state), every reported dissipated energy is >= 0
+   and the accumulated dissipation is non-decreasing, and a hold after any history relaxes monotonically; (d) the two limits in epsilon
+   form for the three-branch model; (e) for a virgin material the trial strain is lss (F^T F), the logarithmic strain of the deformation.
+   NOT PROVED: that TensorMath.eigen_sym33_unit satisfies eigh_ok (existence is now a theorem; accuracy of the routine in binary64 is
+   property C12) and that jax.scipy.linalg.expm (Pade approximant, scaling and squaring) equals the spectral exponential expm_R (it does
+   so only up to the Pade truncation error, ~1e-16 relative); both are evaluated numerically by the harness on every run (stream `spectral`,
+   now also with two different solvers and on degenerate spectra).  Binary64 rounding is outside the theorems. *)
 From Coq Require Import Reals List.
 From OV.base Require Import Num.
 From OV.model Require Import M_C08 M_C11 M_C11s.
-From OV.proofs Require Import L_C08 L_C11a L_C11 L_C11s L_C11t.
+From OV.proofs Require Import L_C08 L_C11a L_C11 L_C11s L_C11t L_C11e L_C11u.
 Import ListNotations.
 Local Open Scope R_scope.
 
@@ -194,6 +205,112 @@ Theorem C11_bound_large_step_three_branch : forall (lss : M -> M) (p : @p8 R) (F
   <= cb lss p 0 H Fv1 * (taub 0 p / dt) + cb lss p 1 H Fv2 * (taub 1 p / dt) + cb lss p 2 H Fv3 * (taub 2 p / dt).
 Proof. exact mb_bound_large_dt. Qed.
 
+(* ---- round 4 (a): the spectral theorem in dimension 3 and solver independence.  solver_ok eigh := forall A, msym A -> eigh_ok eigh A *)
+Theorem C11_eigen_solver_exists : exists eigh : M -> E3, forall A : M, msym A -> eigh_ok eigh A.
+Proof. exact eigh_exists. Qed.
+Theorem C11_eigen_solver : solver_ok eigh_sym.
+Proof. exact eigh_sym_ok. Qed.
+Theorem C11_spectral_function_solver_independent : forall (eigh1 eigh2 : M -> E3) (f : R -> R) (A : M),
+  eigh_ok eigh1 A -> eigh_ok eigh2 A -> spectral eigh1 f A = spectral eigh2 f A.
+Proof. exact spectral_solver_independent. Qed.
+Theorem C11_log_sqrt_canonical : forall (eigh : M -> E3) (A : M), msym A -> eigh_ok eigh A -> lss_spec eigh A = lss_R A.
+Proof. exact lss_R_canonical. Qed.
+Theorem C11_exponential_canonical : forall (eigh : M -> E3) (A : M), msym A -> eigh_ok eigh A -> expm_spec eigh A = expm_R A.
+Proof. exact expm_R_canonical. Qed.
+
+(* ---- round 4 (b): the contract on symmetric matrices is all that is needed (no per-call premise) ... *)
+Theorem C11_isochoric_all_three_branch : forall (eighL eighE : M -> E3), solver_ok eighE ->
+  forall (n : nat) (p : @p8 R) (Fv : M) (dt : R) (H : M), 0 < taub n p -> 0 < dt ->
+  mdet (state_new_b n (lss_spec eighL) (expm_spec eighE) p Fv dt H) = mdet Fv.
+Proof. exact state_new_b_det_all. Qed.
+Theorem C11_coaxial_update_all : forall (eighL eighE : M -> E3), solver_ok eighL -> solver_ok eighE ->
+  forall (K G Gn tau : R) (H Fv : M) (dt : R), 0 < tau -> 0 < dt -> mdet (defgrad H) <> 0 -> mdet Fv <> 0 ->
+  Etrial (lss_spec eighL) H (state_new_hv (lss_spec eighL) (expm_spec eighE) (K, G, Gn, tau) Fv dt H)
+  = relax_hv (K, G, Gn, tau) dt (Etrial (lss_spec eighL) H Fv).
+Proof. exact coax_hv_all. Qed.
+Theorem C11_coaxial_update_all_three_branch : forall (eighL eighE : M -> E3), solver_ok eighL -> solver_ok eighE ->
+  forall (n : nat) (p : @p8 R) (H Fv : M) (dt : R), 0 < taub n p -> 0 < dt -> mdet (defgrad H) <> 0 -> mdet Fv <> 0 ->
+  Etrial_mb (lss_spec eighL) H (state_new_b n (lss_spec eighL) (expm_spec eighE) p Fv dt H) = relax_b n p dt (Etrial_mb (lss_spec eighL) H Fv).
+Proof. exact coax_b_all. Qed.
+Theorem C11_relaxation_monotone_all : forall (eighL eighE : M -> E3), solver_ok eighL -> solver_ok eighE ->
+  forall (K G Gn tau : R) (H : M) (dts : list R), 0 < tau -> 0 <= Gn -> mdet (defgrad H) <> 0 -> Forall (fun dt => 0 < dt) dts ->
+  forall Fv : M, mdet Fv <> 0 -> nonincreasing (reported (lss_spec eighL) (expm_spec eighE) K G Gn tau H Fv dts).
+Proof. exact relaxation_monotone_all. Qed.
+Theorem C11_relaxation_monotone_all_three_branch : forall (eighL eighE : M -> E3), solver_ok eighL -> solver_ok eighE ->
+  forall (n : nat) (p : @p8 R) (H : M) (dts : list R), (forall n, 0 < taub n p) -> (forall n, 0 <= Gb n p) -> mdet (defgrad H) <> 0 ->
+  Forall (fun dt => 0 < dt) dts -> forall Fv : M, mdet Fv <> 0 -> nonincreasing (reported_b (lss_spec eighL) (expm_spec eighE) p H n Fv dts).
+Proof. exact relaxation_monotone_b_all. Qed.
+Theorem C11_relaxation_monotone_all_total : forall (eighL eighE : M -> E3), solver_ok eighL -> solver_ok eighE ->
+  forall (p : @p8 R) (H : M) (dts : list R), (forall n, 0 < taub n p) -> (forall n, 0 <= Gb n p) -> mdet (defgrad H) <> 0 ->
+  Forall (fun dt => 0 < dt) dts -> forall Fv1 Fv2 Fv3 : M, mdet Fv1 <> 0 -> mdet Fv2 <> 0 -> mdet Fv3 <> 0 ->
+  nonincreasing (reported_total (lss_spec eighL) (expm_spec eighE) p H Fv1 Fv2 Fv3 dts).
+Proof. exact relaxation_monotone_total_all. Qed.
+(* ... and with the solver of C11_eigen_solver NO hypothesis on the matrix functions is left: lss_R = lss_spec eigh_sym, expm_R = expm_spec eigh_sym *)
+Theorem C11_isochoric_unconditional : forall (K G Gn tau : R) (Fv : M) (dt : R) (H : M), 0 < tau -> 0 < dt ->
+  mdet (state_new_hv lss_R expm_R (K, G, Gn, tau) Fv dt H) = mdet Fv.
+Proof. exact (state_new_hv_det_all eigh_sym eigh_sym eigh_sym_ok). Qed.
+Theorem C11_relaxation_unconditional : forall (K G Gn tau : R) (H : M) (dts : list R), 0 < tau -> 0 <= Gn -> mdet (defgrad H) <> 0 ->
+  Forall (fun dt => 0 < dt) dts -> forall Fv : M, mdet Fv <> 0 -> nonincreasing (reported lss_R expm_R K G Gn tau H Fv dts).
+Proof. exact relaxation_unconditional_hv. Qed.
+Theorem C11_relaxation_unconditional_total : forall (p : @p8 R) (H : M) (dts : list R), (forall n, 0 < taub n p) -> (forall n, 0 <= Gb n p) ->
+  mdet (defgrad H) <> 0 -> Forall (fun dt => 0 < dt) dts -> forall Fv1 Fv2 Fv3 : M, mdet Fv1 <> 0 -> mdet Fv2 <> 0 -> mdet Fv3 <> 0 ->
+  nonincreasing (reported_total lss_R expm_R p H Fv1 Fv2 Fv3 dts).
+Proof. exact relaxation_unconditional_total. Qed.
+
+(* ---- round 4 (c): arbitrary histories steps = [(H_1, dt_1); (H_2, dt_2); ...] with positive steps (steps_pos).  run_hv / run_b n give the
+        viscous distortion after the history, diss_hv / diss_mb the dissipated energies the model reports step by step *)
+Theorem C11_history_isochoric : forall (lss expm : M -> M), (forall A : M, mdet (expm A) = exp (mtrace A)) ->
+  forall (K G Gn tau : R) (steps : list (M * R)), 0 < tau -> steps_pos steps -> forall Fv : M, mdet (run_hv lss expm (K, G, Gn, tau) Fv steps) = mdet Fv.
+Proof. exact history_det_hv. Qed.
+Theorem C11_history_isochoric_three_branch : forall (lss expm : M -> M), (forall A : M, mdet (expm A) = exp (mtrace A)) ->
+  forall (n : nat) (p : @p8 R) (steps : list (M * R)), (forall n, 0 < taub n p) -> steps_pos steps -> forall Fv : M, mdet (run_b n lss expm p Fv steps) = mdet Fv.
+Proof. exact history_det_b. Qed.
+Theorem C11_history_isochoric_spectral : forall (eighL eighE : M -> E3), solver_ok eighE ->
+  forall (K G Gn tau : R) (steps : list (M * R)), 0 < tau -> steps_pos steps ->
+  forall Fv : M, mdet (run_hv (lss_spec eighL) (expm_spec eighE) (K, G, Gn, tau) Fv steps) = mdet Fv.
+Proof. exact history_det_hv_spec. Qed.
+Theorem C11_virgin_history_isochoric : forall (K G Gn tau : R) (steps : list (M * R)), 0 < tau -> steps_pos steps ->
+  mdet (run_hv lss_R expm_R (K, G, Gn, tau) mid steps) = 1.
+Proof. exact virgin_history_isochoric_hv. Qed.
+Theorem C11_virgin_history_isochoric_three_branch : forall (n : nat) (p : @p8 R) (steps : list (M * R)), (forall n, 0 < taub n p) -> steps_pos steps ->
+  mdet (run_b n lss_R expm_R p mid steps) = 1.
+Proof. exact virgin_history_isochoric_b. Qed.
+Theorem C11_history_dissipation_nonneg : forall (lss expm : M -> M) (K G Gn tau : R) (steps : list (M * R)), 0 < tau -> 0 <= Gn -> steps_pos steps ->
+  forall Fv : M, Forall (fun d => 0 <= d) (diss_hv lss expm (K, G, Gn, tau) Fv steps).
+Proof. exact history_diss_nonneg_hv. Qed.
+Theorem C11_history_dissipation_nonneg_three_branch : forall (lss expm : M -> M) (p : @p8 R) (steps : list (M * R)),
+  (forall n, 0 < taub n p) -> (forall n, 0 <= Gb n p) -> steps_pos steps ->
+  forall Fv1 Fv2 Fv3 : M, Forall (fun d => 0 <= d) (diss_mb lss expm p Fv1 Fv2 Fv3 steps).
+Proof. exact history_diss_nonneg_mb. Qed.
+Theorem C11_accumulated_dissipation_monotone : forall l : list R, Forall (fun d => 0 <= d) l -> forall acc : R, nondecreasing_from acc (partial_sums acc l).
+Proof. exact partial_sums_monotone. Qed.
+Theorem C11_relaxation_after_history : forall (K G Gn tau : R) (steps : list (M * R)) (H : M) (dts : list R), 0 < tau -> 0 <= Gn -> steps_pos steps ->
+  mdet (defgrad H) <> 0 -> Forall (fun dt => 0 < dt) dts ->
+  nonincreasing (reported lss_R expm_R K G Gn tau H (run_hv lss_R expm_R (K, G, Gn, tau) mid steps) dts).
+Proof. exact relaxation_after_history_hv. Qed.
+Theorem C11_relaxation_after_history_total : forall (p : @p8 R) (steps : list (M * R)) (H : M) (dts : list R),
+  (forall n, 0 < taub n p) -> (forall n, 0 <= Gb n p) -> steps_pos steps -> mdet (defgrad H) <> 0 -> Forall (fun dt => 0 < dt) dts ->
+  nonincreasing (reported_total lss_R expm_R p H (run_b 0 lss_R expm_R p mid steps) (run_b 1 lss_R expm_R p mid steps) (run_b 2 lss_R expm_R p mid steps) dts).
+Proof. exact relaxation_after_history_total. Qed.
+
+(* ---- round 4 (d, e): three-branch limits in epsilon form; the trial strain of a virgin material *)
+Theorem C11_limit_instantaneous_three_branch : forall (lss : M -> M) (p : @p8 R) (Fv1 Fv2 Fv3 H : M),
+  (forall n, 0 < taub n p) -> (forall n, 0 <= Gb n p) -> forall eps, 0 < eps ->
+  exists delta, 0 < delta /\ forall dt, 0 < dt < delta -> Rabs (E_mb lss p Fv1 Fv2 Fv3 dt H - W_inst_mb lss p Fv1 Fv2 Fv3 H) < eps.
+Proof. exact mb_limit_dt_to_0. Qed.
+Theorem C11_limit_equilibrium_three_branch : forall (lss : M -> M) (p : @p8 R) (Fv1 Fv2 Fv3 H : M),
+  (forall n, 0 < taub n p) -> (forall n, 0 <= Gb n p) -> forall eps, 0 < eps ->
+  exists T, 0 < T /\ forall dt, T < dt -> Rabs (E_mb lss p Fv1 Fv2 Fv3 dt H - W_eq_mb p H) < eps.
+Proof. exact mb_limit_dt_to_infinity. Qed.
+Theorem C11_virgin_trial_strain : forall (lss : M -> M) (H : M), Etrial lss H mid = lss (mmul (mtr (defgrad H)) (defgrad H)).
+Proof. exact Etrial_virgin. Qed.
+Theorem C11_virgin_trial_strain_three_branch : forall (lss : M -> M) (H : M), Etrial_mb lss H mid = lss (mmul (mtr (defgrad H)) (defgrad H)).
+Proof. exact Etrial_mb_virgin. Qed.
+
+(* non-vacuity of the history theorems: a two-step history with two different non-diagonal deformations has positive steps *)
+Example C11_history_nonvacuous : exists steps : list (M * R), steps_pos steps /\ length steps = 2%nat /\ fst (nth 0 steps (mzero, 0)) <> fst (nth 1 steps (mzero, 0)).
+Proof. exact history_nonvacuous. Qed.
+
 (* non-vacuity: the hypotheses on expm and the coaxial update are jointly satisfiable *)
 Example C11_nonvacuous : exists (lss expm : M -> M),
   (forall A : M, mdet (expm A) = exp (mtrace A))
@@ -222,3 +339,7 @@ Print Assumptions C11_relaxation_monotone_total.
 Print Assumptions C11_relaxation_monotone_spectral.
 Print Assumptions C11_limit_instantaneous.
 Print Assumptions C11_limit_equilibrium.
+Print Assumptions C11_eigen_solver.
+Print Assumptions C11_relaxation_unconditional_total.
+Print Assumptions C11_relaxation_after_history.
+Print Assumptions C11_history_isochoric.
